@@ -68,6 +68,11 @@ func (cs crashsim) Gen(prop, tier string, ts *sim.Tapes) *Case {
 		budget = 0
 	}
 	c.Params["crash_budget"] = budget
+	if prop == "C01" && t.Chance(1, 5) {
+		// the history ends with a commit one of whose syncs fails (nothing becomes durable by a failed sync):
+		// a commit that is nevertheless acknowledged must survive every crash state that follows
+		c.Params["sync_fault"] = 1 + t.Pick(1, 2) // 1: the data sync fails, 2: the sync after the meta write
+	}
 	return c
 }
 
@@ -191,9 +196,22 @@ func (cs crashsim) Run(c *Case, dir string) (out *Outcome) {
 			disk.Log[i].Err = err.Error()
 		}
 		if beginAt >= 0 {
-			wins = append(wins, window{beginAt, i, txid})
+			to := i
+			if err != nil {
+				// a commit that reported failure may still surface after a later crash (its meta write stays among
+				// the unsynced units) until another commit supersedes it
+				to = 1 << 30
+			}
+			wins = append(wins, window{beginAt, to, txid})
 		}
 		beginAt = -1
+	}
+	// sync-fault variant: the last committing step gets a failing fdatasync and ends the history
+	faultStep := -1
+	if c.Params["sync_fault"] > 0 {
+		if ws := writeSteps(c.Prog); len(ws) > 0 {
+			faultStep = ws[len(ws)-1]
+		}
 	}
 	// acked[i] = highest txid whose commit had returned before log index i
 	type ack struct{ at, txid int }
@@ -201,6 +219,33 @@ func (cs crashsim) Run(c *Case, dir string) (out *Outcome) {
 	for i := range c.Prog.Steps {
 		Tick()
 		st := &c.Prog.Steps[i]
+		if i == faultStep {
+			disk.PageSize = ps
+			disk.Plan = &sim.FaultPlan{K: c.Params["sync_fault"] - 1, Kind: "eio", Only: "fdatasync"}
+			mark := e.OnBegin
+			e.OnBegin = func(txid int) { mark(txid); disk.Arm(true) }
+			e.TolerateErr = true
+			e.FileChecks = false
+			var would *model.Bucket
+			before := e.LastTxid
+			e.RunTxCapture(st.Tx, &would)
+			disk.Arm(false)
+			e.OnBegin = mark
+			e.TolerateErr = false
+			if disk.Fired != "" {
+				out.fault("sync-failure-before-crash:"+[]string{"data-sync", "meta-sync"}[c.Params["sync_fault"]-1], 1)
+				if e.LastErr == nil && e.LastTxid != before {
+					out.probe("commit-acknowledged-despite-failed-sync", 1)
+				}
+				if e.LastErr != nil && would != nil {
+					e.Versions[before+1] = would // what recovery may legitimately find if the meta write survives
+				}
+			}
+			if e.LastTxid != before {
+				acks = append(acks, ack{len(disk.Log), e.LastTxid})
+			}
+			break // the history ends here
+		}
 		if st.Kind == "reopen" {
 			prev := e.LastTxid
 			from := disk.Marker("reopen-call", prev)
@@ -379,6 +424,11 @@ func enumerateCrashStates(d *sim.Disk, c *Case, t *sim.Tape) ([]sim.CrashSpec, [
 				}
 			}
 		}
+	}
+	// the end of the history is a crash point too (the power fails after the last call returned): it matters when
+	// the last I/O call is followed only by markers, e.g. a commit acknowledged right after its final sync
+	if n := len(d.Log); n > 0 && (len(pts) == 0 || pts[len(pts)-1].p != n) {
+		pts = append(pts, pt{n, 0})
 	}
 	var specs []sim.CrashSpec
 	exhaust := 6
